@@ -115,6 +115,7 @@ structure BuildReq where
 inductive DStep where
   | plain (s : Step)
   | build (b : BuildReq)
+  | dropAt (p : Path)
 
 def getStep (j : Json) : Except String DStep := do
   let k ← getStr j "k"
@@ -123,7 +124,7 @@ def getStep (j : Json) : Except String DStep := do
     let ts ← (← getArr j "targets").toList.mapM getTarget
     pure (.plain (.edit (defsOf ts) (← getBytesOptPairs j "writes")))
   | "taint" => pure (.plain (.taint (← getBytesList j "labels")))
-  | "drop" => pure (.plain (.dropBlob (← getBytes j "val")))
+  | "drop" => pure (.dropAt (← getBytes j "path"))
   | "build" =>
     pure (.build { cfg := { enableCache := ← getBool j "enableCache", minimal := ← getBool j "minimal" },
                    order := ← getBytesList j "order", watch := ← getBytesList j "watch",
@@ -147,6 +148,9 @@ def simulate : Handler := fun j => do
     let (w, outs) := acc
     match st with
     | .plain s => (step P w s, outs)
+    | .dropAt p => (match w.fs p with
+        | some v => (step P w (.dropBlob v), outs)
+        | none => (w, outs))
     | .build b =>
       let s := Grog.Build.build P b.cfg w b.order
       let o := Json.mkObj [
